@@ -171,6 +171,15 @@ def _rule_cases():
         cases.append((f"OptionalTaskForceSchedule/task_optional={opt}", lambda opt=opt: ps.OptionalTaskForceSchedule(task=opt_task(opt), to_be_scheduled=True), not opt))
         cases.append((f"OptionalTaskConditionSchedule/task_optional={opt}", lambda opt=opt: ps.OptionalTaskConditionSchedule(task=opt_task(opt), condition=z3.Bool("c")), not opt))
         cases.append((f"OptionalTasksDependency/task_2_optional={opt}", lambda opt=opt: ps.OptionalTasksDependency(task_1=ps.FixedDurationTask(name="M", duration=1), task_2=opt_task(opt)), not opt))
+    # the rule depends on the named task only: every combination of the *other* flags too (task_1 optional or not,
+    # forced to be scheduled or to be left out) -- a rule relaxed when task_1 is optional was a round-6 seed
+    for o1, o2 in itertools.product((False, True), repeat=2):
+        cases.append((f"OptionalTasksDependency/task_1_optional={o1},task_2_optional={o2}",
+                      lambda o1=o1, o2=o2: ps.OptionalTasksDependency(task_1=ps.FixedDurationTask(name="M", duration=1, optional=o1), task_2=opt_task(o2)), not o2))
+        cases.append((f"OptionalTasksDependency/variable_tasks/task_1_optional={o1},task_2_optional={o2}",
+                      lambda o1=o1, o2=o2: ps.OptionalTasksDependency(task_1=ps.VariableDurationTask(name="M", optional=o1), task_2=ps.ZeroDurationTask(name="Z", optional=o2)), not o2))
+        cases.append((f"OptionalTaskForceSchedule/task_optional={o1},to_be_scheduled={o2}",
+                      lambda o1=o1, o2=o2: ps.OptionalTaskForceSchedule(task=opt_task(o1), to_be_scheduled=o2), not o1))
     for mask in itertools.product((False, True), repeat=2):
         cases.append((f"ForceScheduleNOptionalTasks/optional_flags={mask}",
                       lambda mask=mask: ps.ForceScheduleNOptionalTasks(list_of_optional_tasks=[ps.FixedDurationTask(name=f"T{i}", duration=1, optional=o) for i, o in enumerate(mask)], nb_tasks_to_schedule=1),
